@@ -84,6 +84,38 @@ func C16(c *core.Ctx) {
 		}
 		entryDesc[fname] = entry[fn].String()
 		core.Instrs(fn, func(in ssa.Instruction) {
+			// whole-struct load / store of a guarded entry type (e.g. `c := *nh`)
+			if t, addr, wr, ok := wholeStructAccess(in); ok {
+				locks := c16StructLocks(t)
+				if locks == nil || isFreshObject(addr) {
+					return
+				}
+				nAcc++
+				h := held[fn][in]
+				for _, l := range locks {
+					if h["W:"+l] || (!wr && h["R:"+l]) {
+						nOK++
+						return
+					}
+				}
+				if why, ok := c16Frozen[fname]; ok {
+					c.Ok("R16.1", "frozen:"+fname+":"+t+".*", c.Pos(in), "read and found safe: "+why)
+					nOK++
+					return
+				}
+				kind := "read"
+				if wr {
+					kind = "write"
+				}
+				key := fmt.Sprintf("%s:%s.*:%s", fname, t, kind)
+				msg := fmt.Sprintf("whole-struct %s of %s in %s with lockset %s (entry lockset over all callers %s); needs %v", kind, t, fname, h, entry[fn], locks)
+				if a, ok := bad[key]; ok {
+					a.n++
+				} else {
+					bad[key] = &agg{1, c.Pos(in), msg}
+				}
+				return
+			}
 			fa, ok := in.(*ssa.FieldAddr)
 			if !ok {
 				return
@@ -194,6 +226,13 @@ func C16(c *core.Ctx) {
 					// a helper of the package that itself returns fresh storage
 					if cl, ok := l.Val.(*ssa.Call); ok {
 						if id, ok := core.Callee(&cl.Call); ok && id.Pkg == "fw/table" && (id.Name == "copyNextHops" || id.Name == "snapshot") {
+							// the copy reads table storage: it is a copy of a consistent
+							// state only if it is made while the lock is still held
+							h := held[cl.Parent()][cl]
+							if h["R:FIB"] || h["R:RibTable.mutex"] {
+								continue
+							}
+							bad = "copied by " + id.Name + " after the table lock was released (lockset " + h.String() + ")"
 							continue
 						}
 					}
@@ -369,4 +408,51 @@ func isFreshObject(v ssa.Value) bool {
 		return false
 	}
 	return false
+}
+
+// wholeStructAccess: in loads (`*p`) or stores (`*p = v`) a whole struct of a named type.
+func wholeStructAccess(in ssa.Instruction) (typ string, addr ssa.Value, write, ok bool) {
+	named := func(t types.Type) (string, bool) {
+		pt, ok := t.Underlying().(*types.Pointer)
+		if !ok {
+			return "", false
+		}
+		n, ok := pt.Elem().(*types.Named)
+		if !ok {
+			return "", false
+		}
+		if _, ok := n.Underlying().(*types.Struct); !ok {
+			return "", false
+		}
+		return n.Obj().Name(), true
+	}
+	switch x := in.(type) {
+	case *ssa.UnOp:
+		if x.Op != token.MUL {
+			return
+		}
+		if t, ok := named(x.X.Type()); ok {
+			return t, x.X, false, true
+		}
+	case *ssa.Store:
+		if t, ok := named(x.Addr.Type()); ok {
+			return t, x.Addr, true, true
+		}
+	}
+	return
+}
+
+// c16StructLocks: the locks guarding the fields of struct type t (nil: not a guarded type).
+func c16StructLocks(t string) []string {
+	var ks []string
+	for k := range c16Guards {
+		if strings.HasPrefix(k, t+".") {
+			ks = append(ks, k)
+		}
+	}
+	if len(ks) == 0 {
+		return nil
+	}
+	sort.Strings(ks)
+	return c16Guards[ks[0]]
 }
